@@ -174,7 +174,7 @@ def run(chk):
     chk.trusted_base = list(srvprop.TRUSTED) + ['msgpack.loads / dumps as oracles (frames compared as the packed dict)']
     chk.prove()
     rng = chk.rng
-    hs = []
+    hs = srvcommon.load_corpus('c12')
     for _ in range(1500 if chk.thorough else 110):
         cfg, ops = server_hist.gen_history(rng, k)
         hs.append(hostile(rng, cfg, ops))
